@@ -66,6 +66,12 @@ open Erbium.LeaseReport Erbium.Spec.Json in
 theorem C20_host_name_any_characters (h : List Char) : StrBody (jsonStringBody h) h := jsonStringBody_spec h
 
 open Erbium.LeaseReport Erbium.Spec.Json in
+/-- … and **only** them: the string grammar is unambiguous, so whatever a conforming reader takes the host-name text
+    to denote, it is the stored host name (an injection through the host name cannot make the entry say anything else) -/
+theorem C20_host_name_read_back_exactly (h s : List Char) (hs : StrBody (jsonStringBody h) s) : s = h :=
+  strBody_unique hs (jsonStringBody_spec h)
+
+open Erbium.LeaseReport Erbium.Spec.Json in
 /-- numbers are written without loss: the digits are a JSON integer (no leading zero, no sign) whose value is the
     number, so two different start or expiry times never print alike -/
 theorem C20_numbers_exact (a b : Nat) (h : dec a = dec b) : a = b := by
